@@ -12,7 +12,7 @@ import (
 )
 
 func init() {
-	register("C05", "Decides the pairing and ordering clauses of RTT fidelity: (R05.1) on every accept path the reported RTT is time.Since of a send time that comes out of the SAME sent-probe lookup (same SSA call value / same key) that yields the reported TTL, and RTT accessors compute time.Since of the entry they looked up by their own key parameter; (R05.2) in every SendProbe the probe-table write (which carries time.Now) dominates Sink.WriteTo, so a reply can never find a missing or later-stamped entry; (R05.4) ToHops copies RTT, address, IsDest of the same probe into the hop at that probe's index and runE2eProbeOnce returns the destination hop's RTT. 'Within one poll interval', non-negativity and the numeric value are timing facts and are not decided. R05.1 also requires the clock read that ends the RTT to come after the capture read on the accept path (event order of the inlined path). R05.4 is decided on the inlined paths of ToHops to the store / append of a hop (constructors of any module package opened; an appended slice must start empty).", runC05)
+	register("C05", "Decides the pairing and ordering clauses of RTT fidelity: (R05.1) on every accept path the reported RTT is time.Since of a send time that comes out of the SAME sent-probe lookup (same SSA call value / same key) that yields the reported TTL, and RTT accessors compute time.Since of the entry they looked up by their own key parameter; (R05.2) in every SendProbe the probe-table write (which carries time.Now) dominates Sink.WriteTo, so a reply can never find a missing or later-stamped entry; (R05.4) ToHops copies RTT, address, IsDest of the same probe into the hop at that probe's index and runE2eProbeOnce returns the destination hop's RTT. 'Within one poll interval', non-negativity and the numeric value are timing facts and are not decided. R05.1 also requires the clock read that ends the RTT to come after the capture read on the accept path (event order of the inlined path). R05.4 is decided on the inlined paths of ToHops to the store / append of a hop (constructors of any module package opened; an appended slice must start empty). (R05.2) The send time keeps its monotonic reading (no Round / Truncate / UTC / Local / In before it is stored); (R05.4) the hop address is probe.IP.AsSlice(); hops are judged at the end of the loop trip that put them into the result.", runC05)
 	darwinRules["C05"] = runC05
 }
 
